@@ -145,7 +145,7 @@ impl Engine for C07 {
         let in_path = write_input(&dir, "in", &case.records, &case.container);
         let out_dir = dir.join("out");
         std::fs::create_dir_all(&out_dir).unwrap();
-        let r = run_counter(&in_path, &out_dir, &cfg, &case.sched, &case.io, None, max_steps(&case.tier));
+        let r = run_counter(&in_path, &out_dir, &cfg, &case.sched, &case.io, None, steps_for(case));
         out.absorb(&r, true);
         match &r.value {
             Err(e) => {
